@@ -1,6 +1,7 @@
 package canon
 
 import (
+	"sort"
 	"encoding/json"
 	"fmt"
 
@@ -114,6 +115,16 @@ var kindByName = func() map[string]t_aio.StoreKind {
 }()
 
 func KindByName(n string) (t_aio.StoreKind, bool) { k, ok := kindByName[n]; return k, ok }
+
+// KindNames lists every store command kind by name (sorted)
+func KindNames() []string {
+	out := []string{}
+	for n := range kindByName {
+		out = append(out, n)
+	}
+	sort.Strings(out)
+	return out
+}
 
 func ParseCmd(m map[string]any) (*t_aio.Command, error) {
 	name, _ := m["k"].(string)
